@@ -134,7 +134,7 @@ def run(R, tier):
                           'texts, numeric-looking texts, mixed case, dates, date-times, blanks, booleans) x operators, through direct '
                           '_compare calls, cells, overrides and literals; non-trivial = pair of different values; distinct by recipe')
     C.proof_obligations(R, 'theories/Props/C10.v', 'Props.C10', TARGETS)
-    if any('build failed' in b for b in R.broken):
+    if any('Coq build failed' in b for b in R.broken):
         return
     recipes = corpus() + gen_recipes(R.rng, tier)
     cases = [make_case(rc) for rc in recipes]
